@@ -31,17 +31,22 @@ func stakeX(lvl int) map[string]interface{} {
 func concretize(beh []hx.Step, seed int64) Script {
 	sc := Script{Seed: seed, Actions: warmActions()}
 	nextTarget := 9
+	open := false
 	for _, st := range beh {
 		switch st.Str("a") {
-		case "block":
+		case "tx":
+			open = true
 			if st.Str("kind") == "stake" {
-				sc.Actions = append(sc.Actions, Action{A: "block", Txs: []map[string]interface{}{stakeX(st.Int("lvl"))}})
+				sc.Actions = append(sc.Actions, Action{A: "tx", Txs: []map[string]interface{}{stakeX(st.Int("lvl"))}})
 			} else {
 				tgt := fmt.Sprintf("a%d", nextTarget)
 				nextTarget++
 				tx := map[string]interface{}{"kind": "app_stake", "app": tgt, "chains": []interface{}{}, "amount": float64(0), "signer": "a8"}
-				sc.Actions = append(sc.Actions, Action{A: "block", Txs: []map[string]interface{}{tx}})
+				sc.Actions = append(sc.Actions, Action{A: "tx", Txs: []map[string]interface{}{tx}})
 			}
+		case "commit":
+			open = false
+			sc.Actions = append(sc.Actions, Action{A: "commit"})
 		case "rpc":
 			sc.Actions = append(sc.Actions, Action{A: "rpc", OnlyA: true, Path: "app", Who: "a8", Height: int64(warm + st.Int("h"))})
 		case "abci":
@@ -51,6 +56,9 @@ func concretize(beh []hx.Step, seed int64) Script {
 		case "simulate":
 			sc.Actions = append(sc.Actions, Action{A: "simulate", OnlyA: true, Tx: stakeX(st.Int("lvl"))})
 		}
+	}
+	if open {
+		sc.Actions = append(sc.Actions, Action{A: "commit"}) // close the block so its codes and hash are compared
 	}
 	return sc
 }
@@ -82,7 +90,7 @@ func offKinds(beh []hx.Step) []string {
 	seen := map[string]bool{}
 	var out []string
 	for _, st := range beh {
-		if a := st.Str("a"); a != "block" && !seen[a] {
+		if a := st.Str("a"); a != "tx" && a != "commit" && !seen[a] {
 			seen[a] = true
 			out = append(out, a)
 		}
@@ -111,7 +119,7 @@ func replayRel(in string, shard, of int) {
 		for _, st := range beh {
 			rep.Steps++
 			rep.OpCounts[st.Str("a")]++
-			if st.Str("a") != "block" {
+			if a := st.Str("a"); a != "tx" && a != "commit" {
 				nOff++
 			} else if st.Bool("div") {
 				modelDiv = true
